@@ -29,6 +29,13 @@ func (h Heap) clone() Heap {
 	return Heap{vers: m, epoch: h.epoch}
 }
 
+// bufRef: a view [off, off+len) of a local byte buffer whose content is the Str-valued local variable name
+type bufRef struct {
+	name string
+	off  string
+	len  string
+}
+
 type Obligation struct {
 	Name   string
 	Class  string
@@ -87,6 +94,9 @@ type FnExec struct {
 	mode     string // "full" or "safety"
 	mutSlices map[ssa.Value]Val
 	waived      []string
+	bufs        map[ssa.Value]*bufRef // local byte buffers (make([]byte, n)) and slices of them
+	ins         map[string]string // in(param): content of the buffer region before the call
+	outs        map[string]string // out(param) terms during a call whose callee writes into a buffer argument
 	inheritedPre bool
 	implOf      types.Type
 	outerVal    *Val
@@ -105,7 +115,7 @@ func (e *Engine) newFnExec(fn *ssa.Function, con *Contract) *FnExec {
 	fx := &FnExec{e: e, fn: fn, c: newCtx(), con: con, vals: map[ssa.Value]Val{}, reach: map[*ssa.BasicBlock]string{},
 		heapOut: map[*ssa.BasicBlock]Heap{}, heapIn: map[*ssa.BasicBlock]Heap{}, counters: map[string]int{}, loops: map[*ssa.BasicBlock]*loopInfo{},
 		names: map[string][]ssa.Value{}, epochCtr: &n, uncontracted: map[string]bool{}, usedContracts: map[string]bool{}, params: map[string]Val{},
-		mutSlices: map[ssa.Value]Val{}, localNames: map[string]bool{}}
+		mutSlices: map[ssa.Value]Val{}, localNames: map[string]bool{}, bufs: map[ssa.Value]*bufRef{}}
 	fx.entry = Heap{vers: map[string]string{}, epoch: 0}
 	fx.key = keyOfFunction(fn)
 	return fx
@@ -347,7 +357,7 @@ func (fx *FnExec) wellTyped(v Val, h *Heap) string {
 			facts = append(facts, rangeFact(v.L[i], l.T))
 		}
 		if l.Sort == "Int" && (l.Path == "len" || strings.HasSuffix(l.Path, ".len")) {
-			facts = append(facts, sLe("0", v.L[i]), sLe(v.L[i], "9223372036854775807"))
+			facts = append(facts, sLe("0", v.L[i]), sLe(v.L[i], "4611686018427387903")) // no object is larger than 2^62 bytes
 			// nil slices are empty
 			if i > 0 && ls[i-1].Sort == "Bool" && (ls[i-1].Path == "nil" || strings.HasSuffix(ls[i-1].Path, ".nil")) {
 				facts = append(facts, sImp(v.L[i-1], sEq(v.L[i], "0")))
@@ -430,6 +440,9 @@ func realLit(f float64) string {
 }
 
 func (fx *FnExec) val(v ssa.Value) Val {
+	if b, ok := fx.bufs[v]; ok {
+		return fx.materializeBuf(v.Type(), b)
+	}
 	if r, ok := fx.vals[v]; ok {
 		return r
 	}
@@ -730,6 +743,9 @@ func (fx *FnExec) load(h *Heap, p Val) Val {
 	et := elemOf(p.T)
 	if p.Loc != nil {
 		switch p.Loc.Kind {
+		case LBufElem:
+			cur := fx.heapVar(h, p.Loc.Buf.name, "Str")
+			return Val{T: p.Loc.ElemT, L: []string{app("str_at", cur, sAdd(p.Loc.Buf.off, p.Loc.Idx))}}
 		case LLocal:
 			t := p.Loc.LocalT
 			out := Val{T: t}
@@ -763,6 +779,9 @@ func (fx *FnExec) store(h *Heap, p Val, v Val) {
 	et := elemOf(p.T)
 	if p.Loc != nil {
 		switch p.Loc.Kind {
+		case LBufElem:
+			fx.bufSet(p.Loc.Buf, p.Loc.Idx, v.L[0])
+			return
 		case LLocal:
 			for i, l := range fx.e.leaves(p.Loc.LocalT) {
 				if i < len(v.L) {
@@ -1108,6 +1127,13 @@ func (fx *FnExec) typeMods(t types.Type, mods map[string]bool) {
 }
 
 func (fx *FnExec) addrMods(addr ssa.Value, mods map[string]bool) bool {
+	if ia, ok := addr.(*ssa.IndexAddr); ok {
+		if n := fx.bufNameOf(ia.X); n != "" {
+			mods[n] = true
+			fx.e.heapSort[n] = "Str"
+			return false
+		}
+	}
 	// stores into non-escaping locals
 	if base, path, t, ok := fx.localPath(addr); ok {
 		for _, l := range fx.e.leaves(t) {
@@ -1210,6 +1236,12 @@ func (fx *FnExec) mapKeyTerm(kt types.Type, k Val) string {
 // callMods: which heap variables may a call write
 func (fx *FnExec) callMods(cc *ssa.CallCommon, mods map[string]bool) bool {
 	mods["$alloc"] = true
+	for _, a := range cc.Args {
+		if n := fx.bufNameOf(a); n != "" {
+			mods[n] = true
+			fx.e.heapSort[n] = "Str"
+		}
+	}
 	if b, ok := cc.Value.(*ssa.Builtin); ok {
 		_ = b
 		if b.Name() == "delete" {
@@ -1273,4 +1305,48 @@ func (fx *FnExec) localBase(a *ssa.Alloc) string {
 		n = "tmp"
 	}
 	return fmt.Sprintf("L.%s.%s", n, a.Name())
+}
+
+// isByteSlice reports []byte (or a named type with that underlying type)
+func isByteSlice(t types.Type) bool {
+	if !isSlice(t) {
+		return false
+	}
+	et := elemOf(t)
+	return typeKey(et) == "byte" || typeKey(et) == "uint8"
+}
+
+// materializeBuf: the current content of a buffer view as an ordinary (immutable) []byte value
+func (fx *FnExec) materializeBuf(t types.Type, b *bufRef) Val {
+	cur := fx.heapVar(&fx.cur, b.name, "Str")
+	arr := fx.c.fresh("bufsnap", arraySort("Int", "Int"))
+	content := cur
+	if b.off != "0" || b.len != app("str_len", cur) {
+		content = app("str_sub", cur, b.off, sAdd(b.off, b.len))
+	}
+	fx.assume(sEq(app("bytes_str", arr, b.len), content))
+	return Val{T: t, L: []string{tFalse, b.len, arr}}
+}
+
+func (fx *FnExec) bufSet(b *bufRef, idx, v string) {
+	cur := fx.heapVar(&fx.cur, b.name, "Str")
+	fx.heapSet(&fx.cur, b.name, "Str", app("str_set", cur, sAdd(b.off, idx), v))
+}
+
+func (fx *FnExec) bufSplice(b *bufRef, t string) {
+	cur := fx.heapVar(&fx.cur, b.name, "Str")
+	fx.heapSet(&fx.cur, b.name, "Str", app("str_splice", cur, b.off, t))
+}
+
+// bufNameOf: the buffer variable a (possibly re-sliced) local byte buffer value refers to, statically
+func (fx *FnExec) bufNameOf(v ssa.Value) string {
+	switch x := v.(type) {
+	case *ssa.MakeSlice:
+		if isByteSlice(x.Type()) {
+			return "L.buf." + x.Name()
+		}
+	case *ssa.Slice:
+		return fx.bufNameOf(x.X)
+	}
+	return ""
 }
